@@ -5,6 +5,7 @@ From N2kV Require Import Base.ListAux Model.CanId Model.Sched Model.PgnClass Mod
   Spec.ClockSpec Proofs.SendProofs Proofs.HbProofsFrame Proofs.ClockProofs.
 Import ListNotations.
 Local Open Scope Z_scope.
+Set Warnings "-unused-intro-pattern".
 
 (* ---------- constants ---------- *)
 Lemma NB_val : NB = 2305843009213693952.  Proof. reflexivity. Qed.
